@@ -711,7 +711,7 @@ func exprOf(d any) ast.Expr {
 // their connection on a goroutine of their own start it in Start(), and the engine
 // calls Start only once the consumer's listeners are attached.
 func readerStartedByConsumer(c *core.Ctx, R string) {
-	c.Rule(R, "listener-before-reader (typestate): the reader goroutine of a websocket / webtransport transport (`go w.message()`) is started only inside a sync.Once of its Start method — never by the constructor; Start is reached only through engine.startTransport, which is called (a) by baseServer.Handshake after Emit(\"connection\"), on the path to its successful return, and (b) by socket.MaybeUpgrade after the attempt's listeners (packet, close and error of the candidate, close of the session) are registered, on the edge where the session is not closed — a frame read earlier is emitted to no listener and lost (first message of a session that starts on websocket; the probe of an upgrade)")
+	c.Rule(R, "listener-before-reader (typestate): the reader goroutine of a websocket / webtransport transport (`go w.message()`) is started only inside a sync.Once of its Start method — never by Construct; the registered builders return transports that wait for Start (NewDeferred…), the self-starting NewWebSocket / NewWebTransport are for code outside the engine; Start is called (a) by baseServer.Handshake, deferred or after Emit(\"connection\"), on the path to its successful return, and (b) by socket.MaybeUpgrade after the attempt's listeners (packet, close and error of the candidate, close of the session) are registered, on the edge where the session is not closed — a frame read earlier is emitted to no listener and lost (first message of a session that starts on websocket; the probe of an upgrade)")
 	// (1) who starts a reader
 	n := 0
 	for _, u := range c.P.Units {
@@ -735,8 +735,11 @@ func readerStartedByConsumer(c *core.Ctx, R string) {
 		}
 	}
 	c.Need(R, "reader goroutine starts (go message())", n, 2)
-	// (2) who calls Start
+	// (2) who calls Start: the engine at its two hand-over points, and the constructors that keep reading at once
+	// (NewWebSocket / NewWebTransport, for code that builds a transport itself) — which the registered builders,
+	// i.e. the engine's own transports, must not use
 	n = 0
+	var inHs, inUp []*core.Call
 	for _, u := range c.P.Units {
 		for _, cl := range u.Calls() {
 			if cl.Name != "Start" || cl.Callee == nil || cl.Inlined != nil || !strings.HasPrefix(cl.Key, "transports.") {
@@ -744,19 +747,43 @@ func readerStartedByConsumer(c *core.Ctx, R string) {
 			}
 			n++
 			c.Touch(u)
-			c.Check(R, keyf("%s/Start-only-through-startTransport", u.Root().Key), cl.Pos(), u.Root().Key == "engine.startTransport", "a transport is started where the engine knows the listeners are attached")
+			switch callerKey(c, cl) {
+			case "engine.(*baseServer).Handshake":
+				inHs = append(inHs, cl)
+			case sockUpgrade:
+				inUp = append(inUp, cl)
+			case "transports.NewWebSocket", "transports.NewWebTransport":
+			default:
+				c.Check(R, keyf("%s/Start-caller", callerKey(c, cl)), cl.Pos(), false, "a transport is started by Handshake, by MaybeUpgrade, or by the constructors that read at once")
+			}
 		}
 	}
-	c.Need(R, "calls of a transport's Start", n, 1)
-	var inHs, inUp []*core.Call
-	for _, cl := range callsAnywhere(c, "engine.startTransport") {
-		switch callerKey(c, cl) {
-		case "engine.(*baseServer).Handshake":
-			inHs = append(inHs, cl)
-		case sockUpgrade:
-			inUp = append(inUp, cl)
-		default:
-			c.Check(R, keyf("%s/startTransport-caller", callerKey(c, cl)), cl.Pos(), false, "startTransport is called by Handshake and MaybeUpgrade only")
+	c.Need(R, "calls of a transport's Start", n, 2)
+	for _, k := range []string{"transports.(*WebSocketBuilder).New", "transports.(*WebTransportBuilder).New"} {
+		if u := c.Fn(R, k); u != nil {
+			eager, deferred := 0, 0
+			for _, w := range u.WithHelpers() {
+				for _, cl := range w.Calls() {
+					switch cl.Key {
+					case "transports.NewWebSocket", "transports.NewWebTransport":
+						eager++
+					case "transports.NewDeferredWebSocket", "transports.NewDeferredWebTransport":
+						deferred++
+					}
+					if cl.Name == "Start" && strings.HasPrefix(cl.Key, "transports.") {
+						eager++
+					}
+				}
+			}
+			c.Check(R, k+"/builds-a-transport-that-waits-for-Start", u.Pos(), eager == 0 && deferred == 1, keyf("constructors that read at once: %d; deferred ones: %d", eager, deferred))
+		}
+	}
+	for _, u := range c.P.Units {
+		if u.Pkg != c.P.Pkgs["engine"] {
+			continue
+		}
+		for _, cl := range u.CallsTo("transports.NewWebSocket", "transports.NewWebTransport") {
+			c.Check(R, keyf("%s/engine-builds-no-self-starting-transport", u.Root().Key), cl.Pos(), false, "the engine's transports come from the registered builders")
 		}
 	}
 	// (3) Handshake
@@ -779,7 +806,7 @@ func readerStartedByConsumer(c *core.Ctx, R string) {
 				}
 			}
 		}
-		c.Check(R, "engine.(*baseServer).Handshake/startTransport-after-Emit(connection)", u.Pos(), after && every, keyf("after the connection event: %v; on every path to the successful return: %v", after, every))
+		c.Check(R, "engine.(*baseServer).Handshake/Start-after-Emit(connection)", u.Pos(), after && every, keyf("after the connection event: %v; on every path to the successful return: %v", after, every))
 	}
 	// (4) MaybeUpgrade
 	if u := c.Fn(R, sockUpgrade); u != nil {
@@ -804,7 +831,7 @@ func readerStartedByConsumer(c *core.Ctx, R string) {
 				}
 			}
 		}
-		c.Check(R, sockUpgrade+"/startTransport-after-the-attempt's-listeners", u.Pos(), ok, keyf("%d startTransport call(s), %d listener registrations ahead of it, on the not-closed edge, not avoided by an early return", len(inUp), len(regs)))
+		c.Check(R, sockUpgrade+"/Start-after-the-attempt's-listeners", u.Pos(), ok, keyf("%d Start call(s), %d listener registrations ahead of it, on the not-closed edge, not avoided by an early return", len(inUp), len(regs)))
 	}
 }
 
@@ -833,7 +860,7 @@ func readerStartsAfterConnection(c *core.Ctx) bool {
 		conn = e.Call
 	}
 	for _, cl := range u.Calls() {
-		if cl.Key == "engine.startTransport" && conn != nil && (g.Dominates(conn.Loc, cl.Loc) || cl.Deferred) {
+		if cl.Name == "Start" && strings.HasPrefix(cl.Key, "transports.") && conn != nil && (g.Dominates(conn.Loc, cl.Loc) || cl.Deferred) {
 			return true
 		}
 	}
